@@ -24,7 +24,9 @@ RULE = ('random rasters up to 6x6: zone ids from a small alphabet (negative, fra
         'INDEPENDENTLY in memory layout C / Fortran copy / reversed-axes view / strided view (Dask: also a lazily transposed '
         'array); dimension names equal / different / swapped between zones and values (the call is positional); every pair of '
         'zones x values dtype over float64/float32/int8..64/uint8..64; zone_ids / cat_ids also empty, fractional on integer '
-        'rasters, negative; a stream with zone ids and categories above 2**24 / 2**53 (exact ints, adjacent); NumPy backend on '
+        'rasters, negative; a stream with zone ids and categories above 2**24 / 2**53 (exact ints, adjacent); a Dask stream with zones and '
+        'values chunked INDEPENDENTLY by irregular chunk tuples (same per-axis maximum but different splits such as (4,2,2) vs '
+        '(4,4), same number of blocks with other boundaries, one side unchunked; 2-D and 3-D); NumPy backend on '
         'every case and the Dask backend (one chunking) on about one in seven. The thorough tier enumerates every ordered sub-list '
         'of zone ids x every ordered sub-list of categories for rasters with <= 3 zones and <= 3 categories. Named hard cases: '
         'a skipped category that is present below a selected one, zone_ids in descending order. Non-trivial: at least one '
@@ -188,7 +190,15 @@ def layer_position(case):
     return int(case.get('layer_axis', 0))
 
 
+def _tt(ch):
+    return tuple(tuple(c) if isinstance(c, (list, tuple)) else c for c in ch)
+
+
 def build_inputs(case):
+    if 'chunks' in case:
+        case = dict(case, chunks=_tt(case['chunks']))
+    if 'vchunks' in case:
+        case = dict(case, vchunks=_tt(case['vchunks']))
     zl, vl = case.get('zlayout', 'C'), case.get('vlayout', 'C')
     zdims, vdims, cname = case.get('dimnames') or [['y', 'x'], ['y', 'x'], 'cat']
     zdims, vdims = list(zdims), list(vdims)
@@ -431,6 +441,8 @@ def one(ctx, case, pending):
     ctx.count('layout/zones=%s/values=%s' % (case.get('zlayout', 'C'), case.get('vlayout', 'C')))
     if case.get('bigids'):
         ctx.count('hard/ids-and-categories-above-2^24-or-2^53')
+    if case.get('chunkmode'):
+        ctx.count('dask/irregular-chunk-pairs/%dD/%s' % (case['ndim'], case['chunkmode']))
     if case.get('dimnames'):
         ctx.count('dims/%s' % '-'.join(case['dimnames'][0] + case['dimnames'][1] + [case['dimnames'][2]]))
     if case['ndim'] == 3:
@@ -488,6 +500,26 @@ def gen_big_case(rng, i):
     return case
 
 
+def gen_chunk_case(rng, i):
+    """Dask crosstab with INDEPENDENTLY and irregularly chunked zones and values: chunk tuples that differ but share the
+    per-axis maximum, same number of blocks with other boundaries, one side unchunked; 2-D (count / percentage) and 3-D"""
+    case = gen_case(rng, True, i)
+    rows, cols = rng.randint(3, 8), rng.randint(2, 6)
+    zd, vd = case['zdtype'], case['vdtype']
+    zones, _ = c02.gen_zones(rng, rows, cols, zd, p_nan=0.04, p_pinf=0.02, p_ninf=0.02)
+    if not c02.finite_zone_ids(zones):
+        zones[0][0] = 1.0
+    zch, vch, label = c02.chunk_pairs_2d(rng, rows, cols)
+    case.update(zones=zones, zone_ids=None, backend='dask', chunks=zch, vchunks=vch, chunkmode=label)
+    if case['ndim'] == 2:
+        case.update(values=c02.gen_values(rng, rows, cols, vd, small=True), cat_ids=None,
+                    nodata=None if rng.random() < 0.7 else 0)
+    else:
+        case.update(layers=[c02.gen_values(rng, rows, cols, vd) for _ in case['labels']], agg='count', cat_ids=None,
+                    nodata=None if rng.random() < 0.7 else 0)
+    return case
+
+
 def run(ctx, n=None):
     rng = ctx.rng
     n = n or (600 if ctx.quick() else 8000)
@@ -498,6 +530,8 @@ def run(ctx, n=None):
         one(ctx, gen_big_case(rng, i), pending)
     for case in exhaustive_cases(rng, 2 if ctx.quick() else 40):
         one(ctx, case, pending)
+    for i in range(45 if ctx.quick() else 600):        # appended stream: irregular zones / values chunk pairs
+        one(ctx, gen_chunk_case(rng, i), pending)
     if ctx.model is not None and pending:
         outs = ctx.model.run([p[0] for p in pending])
         for (line, s, case, out), mo in zip(pending, outs):
